@@ -42,3 +42,7 @@ Definition api_brute_cross_lev (k : nat) (refs queries : list str) := all_pairs_
 Definition api_brute_cross_ham (k : nat) (refs queries : list str) := all_pairs_cross (keep_ham k) refs queries.
 Definition api_brute_cross_custom (which k : nat) (maxc : option Q) (refs queries : list str) := redq (all_pairs_cross (keep_custom (custom_dist which) k maxc) refs queries).
 Definition api_custom_dist (which : nat) (a b : str) : Q := Qred (custom_dist which a b).
+
+(* ---- C02 / C06: generated pc_n, varpc_n over Q ---- *)
+Definition api_gen_pc_n (n : list Q) : (bool * Q) := (gen_pc_n_defined n, Qred (gen_pc_n_Q n)).
+Definition api_gen_varpc_n (n : list Q) : (bool * Q) := (gen_varpc_n_defined n, Qred (gen_varpc_n_Q n)).
